@@ -587,3 +587,99 @@ def check_c11(rep):
 
 
 REGISTRY.update({"C11": (check_c11, "model_checking")})
+
+
+# --------------------------------------------------------------------------------------------------
+# C18 multiparty
+# --------------------------------------------------------------------------------------------------
+def multiparty_behaviours(wd, n, max_premature, rng, cap, simulate=None, star=False):
+    name = "MC_MP_%d_%d%s%s" % (n, max_premature, "_sim" if simulate else "", "_star" if star else "")
+    defs = ("MC_Share == %s\nEmit == Quiescent => PrintT(<<\"B\", ToJson([steps |-> hist])>>)" % tla_lit([(7 * i + 3) % 97 for i in range(n)]))
+    cfgl = ["SPECIFICATION Spec", "CONSTANTS", "  NP = %d" % n, "  M = 97", "  Share <- MC_Share", "  MaxPremature = %d" % max_premature, "  Star = %s" % ("TRUE" if star else "FALSE"),
+            "INVARIANTS Agreement NoEarlyFinish Emit", "CHECK_DEADLOCK FALSE"]
+    open(os.path.join(wd, name + ".tla"), "w").write("---- MODULE %s ----\nEXTENDS Multiparty, Json\n%s\n====\n" % (name, defs))
+    cfg = os.path.join(wd, name + ".cfg")
+    open(cfg, "w").write("\n".join(cfgl) + "\n")
+    out = []
+    if simulate:
+        r = run_tlc(name, cfg, wd, workers=4, timeout=600, simulate=simulate, depth=n * n + n + 2, seed=rng.randrange(1 << 30),
+                    on_line=lambda t, o: out.append(o) if t == "B" else None)
+    else:
+        r = run_tlc(name, cfg, wd, workers=8, timeout=900, on_line=lambda t, o: out.append(o) if t == "B" else None)
+    if r["violated"]:
+        raise ToolError("Multiparty.tla violates %s" % r["violated"])
+    if not simulate:
+        tlc_must_pass(r, name)
+    seen = set()
+    uniq = []
+    for o in out:
+        k = json.dumps(o["steps"])
+        if k not in seen:
+            seen.add(k)
+            uniq.append(o["steps"])
+    total = len(uniq)
+    if len(uniq) > cap:
+        rng.shuffle(uniq)
+        uniq = uniq[:cap]
+    return r, uniq, total
+
+
+def check_c18(rep):
+    quick = rep.tier == "quick"
+    wd = workdir("C18")
+    rng = random.Random(rep.seed)
+    orders = {}
+    stats = rep.cov.setdefault("runs", [])
+    for n, prem, cap, sim in ([(2, 1, 10 ** 6, None), (3, 0, 400, None), (3, 1, 300, None), (4, 1, 40, 300)] if quick else
+                              [(2, 1, 10 ** 6, None), (3, 0, 10 ** 6, None), (3, 1, 4000, None), (4, 1, 400, 3000), (5, 1, 100, 1000), (6, 0, 50, 500)]):
+        r, behs, total = multiparty_behaviours(wd, n, prem, rng, cap, simulate=sim)
+        orders.setdefault(n, [])
+        orders[n] += behs
+        stats.append({"parties": n, "premature_finishes": prem, "mode": "simulate" if sim else "exhaustive", "states": r["distinct"], "delivery_orders_found": total, "used": len(behs)})
+        rep.cov["states"] = rep.cov.get("states", 0) + r["distinct"]
+        rep.cov["transitions"] = rep.cov.get("transitions", 0) + r["generated"]
+    star_orders = {}
+    for n, prem, cap, sim in ([(2, 1, 100, None), (3, 1, 200, None), (4, 1, 40, 300)] if quick else [(2, 1, 100, None), (3, 1, 10 ** 6, None), (4, 1, 400, 3000), (6, 0, 50, 500)]):
+        r, behs, total = multiparty_behaviours(wd, n, prem, rng, cap, simulate=sim, star=True)
+        star_orders.setdefault(n, [])
+        star_orders[n] += behs
+        stats.append({"parties": n, "topology": "star", "premature_finishes": prem, "states": r["distinct"], "delivery_orders_found": total, "used": len(behs)})
+        rep.cov["states"] += r["distinct"]
+        rep.cov["transitions"] += r["generated"]
+    plan = [("bfv_8_17_40,40,40", ["pk", "sk", "relin", "decrypt", "keyswitch", "pkswitch", "c2s", "s2c"]),
+            ("bgv_8_17_40,40,40", ["pk", "sk", "relin", "decrypt", "keyswitch", "pkswitch"]),
+            ("ckks_8_0_40,40,40", ["pk", "sk", "relin", "decrypt", "keyswitch", "pkswitch"])]
+    if not quick:
+        plan += [("bfv_8_17_50,50,50,50", ["pk", "relin", "decrypt", "keyswitch", "c2s", "s2c"]), ("bfv_16_97_30,30", ["pk", "decrypt", "keyswitch", "pkswitch"])]
+    total = 0
+    for pset, protos in plan:
+        behs = []
+        for proto in protos:
+            for n, lst in (star_orders if proto in ("c2s", "s2c") else orders).items():
+                sub = lst if (quick is False or len(lst) <= 60) else rng.sample(lst, 60)
+                for steps in sub:
+                    behs.append({"id": len(behs), "n": n, "proto": proto, "steps": steps})
+        results = run_workers_parallel(["c18", pset], behs, wd, "mp_" + pset.split("_")[0] + str(len(pset)), nproc=12, deadline=30.0)
+        nv = 0
+        for beh, res in results:
+            if res["status"] == "ok":
+                continue
+            if res["status"] == "tool_error":
+                raise ToolError(str(res))
+            nv += 1
+            rep.violation({"proto": beh["proto"], "scheme": pset.split("_")[0], "kind": res.get("kind", res["status"])}, {"pset": pset, "behaviour": beh, "result": res})
+        total += len(behs)
+        log("[C18] %s: %d behaviours, %d mismatches" % (pset, len(behs), nv))
+        rep.samples.append({"pset": pset, "proto": behs[len(behs) // 2]["proto"], "n": behs[len(behs) // 2]["n"], "steps": behs[len(behs) // 2]["steps"]})
+    rep.cov["traces_validated_against_impl"] = total
+    rep.cov["evaluations"] = total
+    rep.cov["distinct_nontrivial"] = sum(len(v) for v in orders.values()) * len(plan[0][1])
+    rep.cov["rule"] = ("behaviours = delivery orders of the n(n-1) messages of one broadcast round interleaved with finish attempts (at most one premature), enumerated by TLC over "
+                       "Multiparty.tla for n = 2, 3 and simulated for n >= 4; each order is replayed with real Participants for each protocol (public key, secret-key revelation, "
+                       "two-round relinearization keys, collective decryption, key switch, public-key switch, cipher->shares, shares->cipher): premature finish must be refused, all "
+                       "parties' outputs byte-identical, collective keys work under the sum of the secret keys, plaintext preserved")
+    rep.assumptions += ["the abstract round (sum of shares in Z_97) is the design; the binding checks the concrete ring identities through ordinary encryption/decryption under the summed key",
+                        "CKKS plaintexts are compared within 1e-3"]
+
+
+REGISTRY.update({"C18": (check_c18, "model_checking")})
